@@ -647,7 +647,7 @@ func genOp(t *rapid.T) op {
 func TestCheckHistories(t *testing.T) {
 	s := harness.NewSub("random-histories",
 		"operation lists of 1..25 steps over a random referentially closed family graph (<= 5 people, <= 3 families, decoded from text): 21 edit operations (AddNode/DeleteNode/SetNodes on arbitrary nodes, AddIndividual, AddFamily, AddFamilyWithHusbandAndWife, SetHusband/SetWife incl. nil, SetHusbandPointer/SetWifePointer, AddChild, Document.DeleteNode/AddNode, AddName/Add*Date/SetSex), 5 read operations that warm caches, 10 read-only operations (Warnings, String, Compare, SurroundingSimilarity, Similarity, CompareNodes+Sort, DeepCopy/Filter into another document, in-memory publish, queries); after every edit and read-only step all views (NodesWithTag for every node x 11 tags, Individuals, Families, NodeByPointer for every pointer ever seen, per individual Names/Sex/Births/Baptisms/Deaths/Burials/AllEvents/UniqueIdentifiers/Families/Spouses/Parents/Children/String, per family Husband/Wife/their individuals/Children/the individuals and parents of the children/String) are compared with a fresh decode of Document.String(); read-only steps must leave the text unchanged; non-trivial = an edit that follows a read of the views")
-	s.Rapid(t, harness.Share(harness.Pick(12000, 400000)), 130, func(rt *rapid.T) {
+	s.Rapid(t, harness.Share(harness.Pick(12000, 300000)), 130, func(rt *rapid.T) {
 		h := history{Start: gen.Graph(gen.GraphOpts{MaxPeople: 5, MaxFamilies: 3, UIDs: true, Sources: true}).Draw(rt, "start")}
 		n := rapid.IntRange(1, 25).Draw(rt, "nops")
 		for i := 0; i < n; i++ {
